@@ -26,7 +26,10 @@ Scn == [signResp : BOOLEAN, signAssert : BOOLEAN, enc : BOOLEAN, alg : Algs, bin
         tz : {"UTC", "east9", "west5"},
         \* how the IdP application spells the attribute names of the identity it hands over: as the attribute maps do, or
         \* in another letter case (GivenName, SN, MAIL) -- the SP reads the names of its own map either way
-        keyStyle : {"canonical", "caseVariant"}]            \* the SP's accepted_time_diff: widens acceptance, never what is reported
+        keyStyle : {"canonical", "caseVariant"},
+        \* the subject identifier the IdP is asked to assert: plain ASCII, with characters outside the basic plane, padded
+        \* with blanks (an identifier is data: " bob" and "bob" are two subjects), with markup characters
+        subjClass : {"ascii", "astral", "padded", "markup"}]            \* the SP's accepted_time_diff: widens acceptance, never what is reported
 
 \* what the built response carries (Entity._response): with encryption the assertion signature is made
 \* before encrypting and lives inside the cipher text
@@ -46,6 +49,8 @@ WellFormed(s) == /\ Satisfies(s)
                                      /\ s.authnCtx = "password_authority" /\ s.idpPolicy = "defaultOnly" /\ s.nameid = "transient")
                  /\ (s.keyStyle # "canonical" => s.vclass = "plain" /\ ~s.wantEither /\ s.alg = "sha256" /\ s.skew = 0 /\ s.tz = "UTC"
                                                 /\ s.authnCtx = "password_authority" /\ s.idpPolicy = "defaultOnly" /\ s.nameid = "transient")
+                 /\ (s.subjClass # "ascii" => s.vclass = "plain" /\ ~s.wantEither /\ s.alg = "sha256" /\ s.skew = 0 /\ s.tz = "UTC" /\ ~s.unknownAttr
+                                                /\ s.authnCtx = "password_authority" /\ s.idpPolicy = "defaultOnly" /\ s.keyStyle = "canonical")
                  /\ (s.skew # 0 => s.vclass = "plain" /\ ~s.wantEither /\ s.alg = "sha256" /\ s.nameid = "transient" /\ ~s.unknownAttr)
 
 VARIABLES scn, pc
